@@ -74,6 +74,9 @@ const Prelude = `
 (declare-fun bor (Int Int) Int)
 (declare-fun bxor (Int Int) Int)
 (define-fun bit ((x Int) (p Int)) Bool (= (mod (div x p) 2) 1))
+(assert (forall ((x Int)) (! (=> (>= x 0) (= (band x 1) (ite (bit x 1) 1 0))) :pattern ((band x 1)))))
+(assert (forall ((x Int)) (! (=> (>= x 0) (= (band x 2) (ite (bit x 2) 2 0))) :pattern ((band x 2)))))
+(assert (forall ((x Int)) (! (=> (>= x 0) (= (band x 128) (ite (bit x 128) 128 0))) :pattern ((band x 128)))))
 `
 
 type Result struct {
